@@ -34,7 +34,8 @@ def model_check(wd, T):
             ("DevNoUnmake", base.replace("DevNoUnmake = FALSE", "DevNoUnmake = TRUE"), True),
             ("DevZeroBudget", base.replace("DevZeroBudget = FALSE", "DevZeroBudget = TRUE"), True),
             ("DevStalePonder", base.replace("DevStalePonder = FALSE", "DevStalePonder = TRUE"), True),
-            ("DevRootRepetition", base.replace("DevRootRepetition = FALSE", "DevRootRepetition = TRUE"), True)]
+            ("DevRootRepetition", base.replace("DevRootRepetition = FALSE", "DevRootRepetition = TRUE"), True),
+            ("DevPartialIteration", base.replace("DevPartialIteration = FALSE", "DevPartialIteration = TRUE"), True)]
 
     def one(r):
         name, cfg, expect_violation = r
@@ -47,7 +48,7 @@ def model_check(wd, T):
         violated = "Error:" in info["out"]
         return name, expect_violation, violated, info
 
-    for name, expect, violated, info in pmap(one, runs, 5):
+    for name, expect, violated, info in pmap(one, runs, 6):
         if expect and not violated:
             raise ToolError("EngineMC with %s=TRUE found no violation: the model does not explain the pinned defect" % name)
         if not expect:
